@@ -516,7 +516,10 @@ func (rn *runner) intact(batch []*genFile) {
 				r.Count(sx.name+"_zero_member_decoded_"+mode, 1)
 			}
 			if k == 1 {
-				if g, _ := gs(o["fmt"]); g != sx.fqfmt {
+				if g, _ := gs(o["fmt"]); g != sx.fqfmt && forcedSig != "" {
+					r.Violate(forcedSig, fmt.Sprintf("%s file %s: probe does not recognise the file (same cause as the forced decode)", sx.name, f.Desc), rn.caseOf(f, mode))
+					continue
+				} else if g != sx.fqfmt {
 					r.Violate(sx.name+":probe-format", fmt.Sprintf("%s file %s (%d bytes): probe decodes it as %s", sx.name, f.Desc, len(f.Data), show(o["fmt"])), rn.caseOf(f, mode))
 					continue
 				}
